@@ -44,8 +44,13 @@ RULES = {
     "the cloner's remapping, the presence of a Shape / Graph / Function (classes with __len__ and further state) is tested with `is None`, "
     "never by truthiness - `len(shape) if shape else None` treats a scalar's shape () as unknown rank, so shard() accepts any axis for it "
     "instead of rejecting the request, and the library's own checker then reports the stored spec",
+    "R12": "a configuration keeps its identity through a clone: the nodes of a cloned graph go on referring to the configuration objects of "
+    "the source (records are frozen and shared), so Model.clone registers those very objects on the new model - the "
+    "`device_configurations=` argument of the Model it builds reaches `self.device_configurations` without a copying operation "
+    "(copy.deepcopy / copy.copy / dataclasses.replace / a constructor) on any alternative: copies that are equal but not identical "
+    "leave every node annotation of the clone pointing at a configuration its model does not register",
 }
-FLOORS = {"R1": 12, "R2": 4, "R3": 4, "R4": 4, "R5": 4, "R6": 6, "R7": 2, "R8": 3, "R9": 2, "R10": 10, "R11": 10}
+FLOORS = {"R1": 12, "R2": 4, "R3": 4, "R4": 4, "R5": 4, "R6": 6, "R7": 2, "R8": 3, "R9": 2, "R10": 10, "R11": 10, "R12": 1}
 EXPLANATION = (
     "Structural checks on the record classes, on every writer of a node's input/output tuples, on the serializer's "
     "name derivation, the C06 write-before-reject analysis for the annotation API, and ordering (dominator) checks in "
@@ -429,9 +434,46 @@ def rule_r11(ctx):
     ctx.require(n >= 10, f"only {n} typed truthiness tests found in the annotation API")
 
 
+def rule_r12(ctx):
+    f = ctx.repo.func(f"{CORE}:Model.clone")
+    me = f.params[0]
+    n = 0
+    for c in calls_in(f):
+        if (dotted_of(c.func) or "").split(".")[-1] != "Model":
+            continue
+        arg = next((k.value for k in c.keywords if k.arg == "device_configurations"), None)
+        n += 1
+        if arg is None:
+            ctx.check("R12", "Model.clone hands the device configurations on", False, f, c,
+                      "the clone is built without `device_configurations=`: its nodes keep their annotations but the model registers no configuration",
+                      construct="device configurations not handed to the clone")
+            continue
+        # through locals bound once
+        seen, work, exprs = set(), [arg], []
+        while work:
+            e = work.pop()
+            exprs.append(e)
+            for x in ast.walk(e):
+                if isinstance(x, ast.Name) and x.id not in seen and x.id != me:
+                    seen.add(x.id)
+                    work += [a.value for a in own_nodes(f.node) if isinstance(a, (ast.Assign, ast.AnnAssign)) and getattr(a, "value", None) is not None
+                             and any(isinstance(t, ast.Name) and t.id == x.id for t in (a.targets if isinstance(a, ast.Assign) else [a.target]))]
+        copies = [x for e in exprs for x in ast.walk(e) if isinstance(x, ast.Call) and (
+            (dotted_of(x.func) or "") in ("copy.deepcopy", "copy.copy", "deepcopy", "dataclasses.replace") or (dotted_of(x.func) or "").split(".")[-1] in ("ModelConfiguration",))]
+        reads_own = any(isinstance(x, ast.Attribute) and x.attr in ("device_configurations", "_device_configurations") and norm(x.value) == me for e in exprs for x in ast.walk(e))
+        ctx.check("R12", "Model.clone registers the source's own configuration objects on the clone", reads_own and not copies, f, copies[0] if copies else c,
+                  f"`{norm(arg)[:80]}` registers {'copies (`' + norm(copies[0])[:40] + '`)' if copies else 'something other than self.device_configurations'} on the cloned model while the cloned nodes keep referring to the "
+                  "source's configuration objects: every annotation of the clone targets a configuration that is not registered on its model (the checker reports it, "
+                  "cascade removal misses it, shard() starts a second, parallel annotation)",
+                  how="data flow of the device_configurations argument of Model(...) in Model.clone: reaches self.device_configurations, no copying call on the way",
+                  construct="configurations copied by Model.clone")
+    ctx.require(n >= 1, "Model.clone builds no Model")
+
+
 def run(ctx):
     from ..shared import rule_s17
 
+    rule_r12(ctx)
     rule_r11(ctx)
 
     rule_s17(ctx, "R10", lambda f: (f.owner_class is not None and f.owner_class.name == "Node" and f.module.name == "onnx_ir._core") or f.module.name == "onnx_ir._cloner",
